@@ -140,6 +140,8 @@ def build_cases(tier):
     add("queries_dir_one_file_syntax", SY, queries={"a.graphql": VALID_QUERY, "sub/b.gql": "query Broken { node { id }\n"}, names_in_msg=["b.gql"], states=STATES, tags={"syntax:queries_dir"})
     add("schema_dir_one_file_syntax", SY, schema={"a.graphql": SCHEMA_V, "deep/x/b.graphqls": "type Broken {\n"}, names_in_msg=["b.graphqls"], states=STATES, tags={"syntax:schema_dir"})
     add("schema_syntax_graphqlschema", SY, strategy="graphqlschema", schema=SCHEMA_V + "\ntype Broken {\n", section={"target_file_path": "schema_out.py"}, names_in_msg=["schema.graphql"], states=STATES, tags={"syntax:schema"})
+    add("queries_dir_file_completed_by_next", SY, queries={"a_broken.graphql": "query Ok { node { id } }\nfragment Tail on Query", "b_valid.graphql": "{ node { id } }\n"}, names_in_msg=["a_broken.graphql"], states=STATES, tags={"syntax:queries_dir", "completed_by_next_file"})
+    add("schema_dir_file_completed_by_next", SY, schema={"a.graphql": SCHEMA_V + "\nextend type Query", "b.graphql": "{ more: Int }\n"}, names_in_msg=["a.graphql"], states=STATES, tags={"syntax:schema_dir", "completed_by_next_file"})
     add("empty_queries_file", SY, queries="\n", names_in_msg=["queries.graphql"], tags={"syntax:queries"})
     # (iii) invalid schemas
     for name, sdl in INVALID_SCHEMAS.items():
@@ -156,6 +158,9 @@ def build_cases(tier):
     add("valid_graphqlschema", "ok", strategy="graphqlschema", section={"target_file_path": "schema_out.py", "unknown_key": 3}, states=STATES, tags={"positive"})
     add("valid_all_names", "ok", section={"target_package_name": "my_pkg", "client_name": "MyClient", "client_file_name": "my_client", "enums_module_name": "my_enums",
                                           "input_types_module_name": "my_inputs", "fragments_module_name": "my_frags", "include_comments": "none"}, states=("absent",), tags={"positive"})
+    add("valid_include_comments_bool_true", "ok", section={"include_comments": True}, states=("absent",), tags={"positive", "deprecated_bool_comments"})
+    add("valid_include_comments_bool_false", "ok", section={"include_comments": False}, states=("absent",), tags={"positive", "deprecated_bool_comments"})
+    add("valid_scalars_section", "ok", section={"scalars": {"ID": {"type": "str"}}}, states=("absent",), tags={"positive", "scalars_section"})
     add("valid_legacy_section", "ok", raw_toml="LEGACY", states=("absent",), tags={"positive", "legacy_section"})
     return cases
 
